@@ -89,10 +89,45 @@ impl<Read: ReadHalf> ReadConnection<Read> {
             Reply(Reply<ReplyParams>),
         }
 
-        #[derive(Debug, Deserialize)]
-        struct UnknownError {
-            #[allow(dead_code)]
-            error: serde::de::IgnoredAny,
+        // Not derived: a derived struct rejects a message that repeats the `error` member (duplicate
+        // field), which would let such a message fall through to `Reply`.
+        #[derive(Debug)]
+        struct UnknownError;
+
+        impl<'de> Deserialize<'de> for UnknownError {
+            fn deserialize<D>(deserializer: D) -> core::result::Result<Self, D::Error>
+            where
+                D: serde::Deserializer<'de>,
+            {
+                struct Visitor;
+
+                impl<'de> serde::de::Visitor<'de> for Visitor {
+                    type Value = UnknownError;
+
+                    fn expecting(&self, f: &mut core::fmt::Formatter<'_>) -> core::fmt::Result {
+                        f.write_str("a message with an `error` member")
+                    }
+
+                    fn visit_map<A>(self, mut map: A) -> core::result::Result<UnknownError, A::Error>
+                    where
+                        A: serde::de::MapAccess<'de>,
+                    {
+                        let mut found = false;
+                        while let Some(key) = map.next_key::<alloc::string::String>()? {
+                            found |= key == "error";
+                            map.next_value::<serde::de::IgnoredAny>()?;
+                        }
+
+                        if found {
+                            Ok(UnknownError)
+                        } else {
+                            Err(serde::de::Error::missing_field("error"))
+                        }
+                    }
+                }
+
+                deserializer.deserialize_map(Visitor)
+            }
         }
 
         match self
